@@ -14,7 +14,7 @@ from vf import fluent_ref as fr
 PROP = "C13"
 SHAPES = [(2,), (3,), (4,), (5,), (2, 2), (2, 3), (2, 2, 2)]
 ISHAPES = [(2,), (2, 3)]
-ORDER_OPS = set(fr.NPRED) | {"stack", "flatten", "concatenate", "expand", "transform", "reduce_first", "map", "isel", "sel"} | set(fr.NPBIN)
+ORDER_OPS = set(fr.NPRED) | {"stack", "flatten", "concatenate", "expand", "expand_coord", "transform", "reduce_first", "map", "isel", "sel"} | set(fr.NPBIN)
 
 
 def ops_for(r: fr.RefAction, full: bool, step: int):
@@ -58,6 +58,10 @@ def ops_for(r: fr.RefAction, full: bool, step: int):
                     out.append(["expand", "e", internal, size, axis, None])
                 if full or internal == 0:
                     out.append(["expand", "e", internal, size, 0, [f"p{i}" for i in range(size)]])
+            # selection criteria given explicitly (indices in an order other than 0..n-1)
+            m = ish[internal]
+            for crit in ([list(range(m))[::-1], [m - 1], [0, m - 1, 0]] if full else [list(range(m))[::-1]]):
+                out.append(["expand_coord", "e", internal, crit, 0])
         for axis in sorted({0, nodims}):
             out.append(["transform", [2, 3], "t", axis, None])
         out.append(["transform", [2, 3], "t", 0, ["s", "r"]])
@@ -100,9 +104,9 @@ def programs(ctx):
                     if ops and ops[-1][0] == "power" and isinstance(ops[-1][1], str):
                         continue  # x ** y with array exponents leaves the exactly-representable value alphabet: a leaf
                     for op in ops_for(r, full, step):
-                        if step >= 2 and op[0] in ("isel", "sel", "transform", "expand"):
+                        if step >= 2 and op[0] in ("isel", "sel", "transform", "expand", "expand_coord"):
                             continue
-                        if op[0] in ("expand", "transform", "broadcast") and any(o[0] == op[0] for o in ops):
+                        if op[0] in ("expand", "expand_coord", "transform", "broadcast") and any(o[0] in ((op[0],) if op[0] not in ("expand", "expand_coord") else ("expand", "expand_coord")) for o in ops):
                             continue  # the new dimension's name must be fresh (a squeezed earlier one leaves a scalar coordinate behind)
                         if op[0] == "join" and op[2] == "j" and any(o[0] == "join" and o[2] == "j" for o in ops):
                             continue
